@@ -139,7 +139,7 @@ impl Ex {
 }
 
 /// The expression built from the real combinator types.
-fn real(e: &Ex, leaves: &[LeafDef]) -> BoxAut {
+pub fn real(e: &Ex, leaves: &[LeafDef]) -> BoxAut {
     match e {
         Ex::Leaf(i) => match &leaves[*i] {
             LeafDef::Always => BoxAut::new(AlwaysMatch),
@@ -205,7 +205,7 @@ fn spec_leaf(l: &LeafDef) -> Spec {
     }
 }
 
-fn spec(e: &Ex, leaves: &[LeafDef]) -> Spec {
+pub fn spec(e: &Ex, leaves: &[LeafDef]) -> Spec {
     match e {
         Ex::Leaf(i) => spec_leaf(&leaves[*i]),
         Ex::Co(e) => {
@@ -250,6 +250,50 @@ fn spec(e: &Ex, leaves: &[LeafDef]) -> Spec {
             Spec { delta, accept, start: x.start * ny + y.start }
         }
     }
+}
+
+impl Spec {
+    /// Does the specification accept `key`? (bytes other than a, b are class 2)
+    pub fn accepts(&self, key: &[u8]) -> bool {
+        let mut q = self.start;
+        for &b in key {
+            let sym = match b {
+                b'a' => 0,
+                b'b' => 1,
+                _ => 2,
+            };
+            q = self.delta[q][sym];
+        }
+        self.accept[q]
+    }
+}
+
+/// All expressions of depth <= 2 over the given leaf indices.
+pub fn exprs_depth2(leaf_idx: &[usize]) -> Vec<Ex> {
+    let lf = |i: usize| Box::new(Ex::Leaf(i));
+    let un: [fn(Box<Ex>) -> Ex; 2] = [Ex::Sw, Ex::Co];
+    let bi: [fn(Box<Ex>, Box<Ex>) -> Ex; 2] = [Ex::Un, Ex::In];
+    let mut v = vec![];
+    for &i in leaf_idx {
+        v.push(Ex::Leaf(i));
+        for u in un {
+            v.push(u(lf(i)));
+            for u2 in un {
+                v.push(u(Box::new(u2(lf(i)))));
+            }
+        }
+        for &j in leaf_idx {
+            for b in bi {
+                v.push(b(lf(i), lf(j)));
+                for u in un {
+                    v.push(u(Box::new(b(lf(i), lf(j)))));
+                    v.push(b(Box::new(u(lf(i))), lf(j)));
+                    v.push(b(lf(i), Box::new(u(lf(j)))));
+                }
+            }
+        }
+    }
+    v
 }
 
 /// Restricts to reachable states and returns exact reach-accept / all-accept.
